@@ -187,8 +187,9 @@ def forWork : Nat → Nat → List Token → Nat → Nat
 def beyondDeadlineBound (bytes : List Nat) : Bool :=
   forWork 14 0 (lexBytes (bytes.map UInt8.ofNat)) 0 ≥ 1000000
 
+/-- a FOR program that does not assemble to what it denotes violates C08 and C03 alike -/
 def propOfTag (tag : String) : String :=
-  if tag == "expr" then "C07" else if tag == "for" then "C08" else "C03"
+  if tag == "expr" then "C07" else if tag == "for" then "C08+C03" else "C03"
 
 /-- `X` line -/
 def runAsmLine (modelAsm : Option (Config → List Nat → String)) (line : String) :
